@@ -67,6 +67,8 @@ fn on_next(i: usize) {
         }
     });
     if fault {
+        // the panic happens in the middle of the call: other threads may run while the wrapped iterator executes
+        sh::yield_point();
         panic!("injected fault: wrapped iterator's next() panics");
     }
 }
